@@ -62,6 +62,34 @@ def _exhaustive(F, b, L):
     return bad
 
 
+ORDER_RE = re.compile(r'::(rev|sort\w*|reverse|swap\w*|dedup\w*|retain\w*|insert|truncate|pop|drain|rotate\w*|remove|swap_remove|split_off|clear)$')
+
+
+def _order_ops(F, b, recv_map, argmap, depth):
+    """(callee, receiver term in the *outermost* caller, key closure term, where) of order-changing std calls in b and in the
+    crate-local helpers it hands a list to (helpers = free functions or functions outside Node/Graph/Adjacent)"""
+    pv = F.prov(b)
+
+    def up(t):
+        # translate a term of this body into the caller's terms
+        t = strip_payload(t)
+        if recv_map is not None and isinstance(t, tuple) and t and t[0] == 'param' and t[1] - 1 < len(recv_map):
+            return recv_map[t[1] - 1]
+        return t
+    for bi, t in calls_in(b):
+        name = callee_name(t)
+        if ORDER_RE.search(name) and not name.endswith('Graph::insert') and not t.get('local') and t['args']:
+            clo = up(pv.of_operand(t['args'][1])) if len(t['args']) > 1 else None
+            yield name, up(pv.of_operand(t['args'][0])), clo, t['sp']
+        elif t.get('local') and t.get('res') in F.bodies and depth < 3:
+            cb = F.bodies[t['res']]
+            if t['res'] in argmap or cb['kind'] == 'Closure' or re.search(r'::(node::Node|Graph|node::adjacent::Adjacent)$', cb.get('impl_self_q', '') or '') or cb.get('impl_trait'):
+                continue
+            args = [up(pv.of_operand(a)) for a in t['args']]
+            for r in _order_ops(F, cb, args, argmap, depth + 1):
+                yield r
+
+
 def ser_rules(ctx, flavours):
     F = ctx.F
     out = []
@@ -203,10 +231,34 @@ def ser_rules(ctx, flavours):
                     tv = deep_unwrap(dpv.of_operand(np_[0][1]['args'][1]))
                     if tv != ('aggr', 'tuple', (key_of(MEM), VAL(MEM))):
                         why5.append('node tuple written is %s, expected (key, value)' % pretty(tv))
-        reorder = [callee_name(t) for b_ in (dec, vs) for bi, t in calls_in(b_) if re.search(r'::(rev|sort\w*|reverse|swap\w*|dedup\w*|retain|insert|truncate|pop|drain|rotate\w*)$', callee_name(t)) and
+        # order: the edge list is append-only between the member loop and the wire (a stable sort keyed by the source alone keeps
+        # every node's out-edges in order and is accepted); the node list may be permuted but not shortened; helpers are followed
+        for b_, lists in ((dec, {'nodes': nodes_v, 'edges': edges_v}), (ser, {'nodes': ('f', ('call', dec['q'], (P1_,), None), '0'), 'edges': ('f', ('call', dec['q'], (P1_,), None), '1')})):
+            for name, recv, clo, where_ in _order_ops(F, b_, None, {dec['q']} if b_ is ser else set(), 0):
+                short = name.split('::')[-1]
+                which_ = None
+                for ln, lt in lists.items():
+                    if lt is not None and (recv == lt or (isinstance(lt, tuple) and lt[0] == 'f' and isinstance(recv, tuple) and recv[0] == 'f' and recv[2] == lt[2] and
+                                                         isinstance(recv[1], tuple) and recv[1][0] == 'call' and recv[1][1] == dec['q'])):
+                        which_ = ln
+                perm = re.match(r'^(sort\w*|reverse|swap|rotate\w*)$', short)
+                if which_ == 'nodes' and perm:
+                    continue
+                if which_ == 'edges' and short in ('sort_by_key', 'sort_by_cached_key'):
+                    from .core import closure_result
+                    cr = closure_result(F, clo, [P2_]) if clo is not None else None
+                    leaves = []
+                    if cr is not None:
+                        term_mentions(cr, lambda z: leaves.append(z[2]) or False if isinstance(z, tuple) and len(z) == 3 and z[0] == 'f' and z[1] == P2_ else False)
+                    if leaves and all(x == '0' for x in leaves):
+                        continue
+                    why4.append('edge list is stably sorted by a key that is not the source alone (%s at %s)' % (short, where_))
+                    continue
+                why4.append('order-changing call %s on %s at %s' % (short, which_ or pretty(recv)[:40], where_))
+        reorder = [callee_name(t) for b_ in (vs,) for bi, t in calls_in(b_) if re.search(r'::(rev|sort\w*|reverse|swap\w*|dedup\w*|retain|insert|truncate|pop|drain|rotate\w*)$', callee_name(t)) and
                    not callee_name(t).endswith('Graph::insert')]
         if reorder:
-            why4.append('order-changing calls: ' + ', '.join(reorder))
+            why4.append('order-changing calls in the reader: ' + ', '.join(reorder))
         out.append(Obl('SER2', dec['q'], dec['span'], 'every edge is written exactly once (members x owned OUT halves)', not why2, '; '.join(why2) if why2 else 'ok'))
         # ---- reader side for SER3/SER5
         RL = _loops_with_driver(F, vs)
